@@ -1015,6 +1015,19 @@ macro_rules! ext_mod {
                                 }
                             }
                         }
+                        if spec.method == "none" && spec.script.is_none() && !ctx.quiet && !ctx.oracles.is_empty() && !spec.mode.contains('+') {
+                            // an observer does not change the result: the same search with a for_each closure that only records
+                            // returns the same node / path / cycle / ordering
+                            let mut watched = spec.clone();
+                            watched.method = "each".into();
+                            let out_w = do_search(st, &watched, None);
+                            let strip = |x: &str| -> String { x.split(" trace=").next().unwrap_or("").to_string() };
+                            let (a, b) = (strip(&show_search(&spec, &out)), strip(&show_search(&watched, &out_w)));
+                            if a != b {
+                                let oname = ctx.oracles[0].clone();
+                                ctx.fail(case, li, &oname, format!("`{raw}` returns `{a}`, but the same search with a for_each closure that only watches returns `{b}`: an observer must not change the result"));
+                            }
+                        }
                         if spec.script.is_some() {
                             shown.push_str(&format!(" res=[{}]", sres.into_inner().join(",")));
                         }
@@ -1654,13 +1667,14 @@ macro_rules! ext_mod {
                                     let es: Vec<String> = de.iter().map(|(u, v, e)| format!("{}>{}:{e}", intern(u), intern(v))).collect();
                                     ext.annot = Some(format!("@abs=seq;{};{}", ns.join(","), es.join(",")));
                                 }
-                                if !ctx.quiet && ctx.oracles.iter().any(|o| o == "c13") {
+                                let otag = if ctx.oracles.iter().any(|o| o == "c12") { "c12" } else { "c13" };
+                                if !ctx.quiet && ctx.oracles.iter().any(|o| o == "c13" || o == "c12") {
                                     if let Some((dn, de)) = &doc {
                                         let declared: BTreeSet<&String> = dn.iter().map(|x| &x.0).collect();
                                         let undeclared = de.iter().any(|x| !declared.contains(&x.0) || !declared.contains(&x.1));
                                         match &r {
-                                            Ok(_) if undeclared => ctx.fail(case, li, "c13", format!("text keys, {}: an edge names an undeclared key but deserialisation returned Ok", t[2])),
-                                            Err(m) if !undeclared => ctx.fail(case, li, "c13", format!("text keys, {}: every key is declared but deserialisation failed: {m}", t[2])),
+                                            Ok(_) if undeclared => ctx.fail(case, li, otag, format!("text keys, {}: an edge names an undeclared key but deserialisation returned Ok", t[2])),
+                                            Err(m) if !undeclared => ctx.fail(case, li, otag, format!("text keys, {}: every key is declared but deserialisation failed: {m}", t[2])),
                                             Ok(g) => {
                                                 let mut bad = g.len() != declared.len();
                                                 for (k, n) in g.iter() {
@@ -1670,7 +1684,7 @@ macro_rules! ext_mod {
                                                     }
                                                 }
                                                 if bad {
-                                                    ctx.fail(case, li, "c13", format!("text keys, {}: the Ok graph has a node or edge the document does not declare, or lacks a declared node", t[2]));
+                                                    ctx.fail(case, li, otag, format!("text keys, {}: the Ok graph has a node or edge the document does not declare, or lacks a declared node", t[2]));
                                                 }
                                                 // and the graph with text keys survives a round trip of its own (C12's statement)
                                                 let shape = |g: &GS| -> Vec<(String, i64, Vec<(String, u32)>)> {
@@ -1691,8 +1705,8 @@ macro_rules! ext_mod {
                                                 };
                                                 match back {
                                                     Ok(g2) if shape(&g2) == shape(g) => {}
-                                                    Ok(g2) => ctx.fail(case, li, "c13", format!("text keys, {}: serialising the graph and reading it back changes it: {:?} became {:?}", t[2], shape(g), shape(&g2))),
-                                                    Err(m) => ctx.fail(case, li, "c13", format!("text keys, {}: serialising the graph and reading it back fails: {m}", t[2])),
+                                                    Ok(g2) => ctx.fail(case, li, otag, format!("text keys, {}: serialising the graph and reading it back changes it: {:?} became {:?}", t[2], shape(g), shape(&g2))),
+                                                    Err(m) => ctx.fail(case, li, otag, format!("text keys, {}: serialising the graph and reading it back fails: {m}", t[2])),
                                                 }
                                             }
                                             _ => {}
